@@ -33,7 +33,7 @@ type RTCase struct {
 var c14Keys = []string{"required", "exist", "either", "botheq", "to", "ge", "le", "oto", "gt", "lt", "eq", "noeq", "in", "include", "phone", "email", "idcard", "year", "year2month", "date", "datetime",
 	"int", "ints", "float", "re", "ip", "ipv4", "ipv6", "unique", "json", "prefix", "suffix", "file", "dir", "mycheck", "x", "自定义"}
 
-var c14ValRunes = []rune("ab1XYZ09测试=~/() -_.:谬丯%") // 谬 U+8C2C, 丯 U+4E2F: code points whose low byte is ',' / '/'
+var c14ValRunes = []rune("ab1XYZ09测试=~/() -_.:谬丯%\\") // 谬 U+8C2C, 丯 U+4E2F: code points whose low byte is ',' / '/'
 var c14MsgRunes = []rune("ab1XYZ09测试=~/() -_.:|!谬丯%")
 
 func genText(t *rapid.T, pool []rune, lo, hi int, label string) string {
@@ -74,7 +74,14 @@ func genRTCase(t *rapid.T) (*RTCase, bool) {
 			r.Val, r.HasVal = v, true
 			nt = nt || (qc && n >= 2)
 		}
-		switch rapid.IntRange(0, 6).Draw(t, "msgKind") {
+		switch rapid.IntRange(0, 8).Draw(t, "msgKind") {
+		case 7:
+			// a message that itself begins with (or contains) an explanation label: it is just text
+			r.Msg, r.HasMsg = rapid.SampledFrom([]string{"explain:", "说明:", "explain: ", "see explain:", "说明:必填"}).Draw(t, "labelText")+genText(t, c14MsgRunes, 0, 4, "m"), true
+		case 8:
+			// a quoted segment whose last character is a backslash (a quote is closed by the next quote, always)
+			r.Msg, r.HasMsg = "'"+genText(t, c14MsgRunes, 0, 4, "m")+"\\'", true
+			nt = nt || n >= 2
 		case 0:
 		case 1:
 			r.Msg, r.HasMsg = string(rapid.SampledFrom([]rune("x7=!|测")).Draw(t, "oneChar")), true
@@ -300,7 +307,7 @@ func TestC14(t *testing.T) {
 		})
 	})
 	t.Run("split", func(t *testing.T) {
-		alphabet := []rune("ab,'|=/()~ 测,',,'谬丯甬")
+		alphabet := []rune("ab,'|=/()~ 测,',,'谬丯甬\\")
 		rapid.Check(t, func(t *rapid.T) {
 			var s string
 			if rapid.Bool().Draw(t, "structured") {
